@@ -7,7 +7,9 @@ def f32(x):
     return struct.unpack('<I', struct.pack('<f', x))[0]
 
 
-DB = {'K': dict(
+DB = {'Base': dict(properties={}, defaults={'Val': ('Int32', {'v': 3}), 'ScreenInsets': ('Enum', {'v': 5})}),
+      'K': dict(
+    superclass='Base',
     properties={
         'Val': dict(variant_type='Int32'),
         'Size': dict(variant_type='Vector3', kind=('Canonical', ('SerializesAs', 'size'))),
@@ -18,10 +20,9 @@ DB = {'K': dict(
         'Flag': dict(variant_type='Bool'),
     },
     defaults={
-        'Val': ('Int32', {'v': 7}),
+        'Val': ('Int32', {'v': 7}),           # overrides the inherited default 3
         'Size': ('Vector3', {'x': f32(4.0), 'y': f32(1.0), 'z': f32(2.0)}),
-        'ScreenInsets': ('Enum', {'v': 2}),
-    })}
+    })}                                      # ScreenInsets: inherited default 5
 
 # per-instance shapes: (properties given, what must come back for the properties of the column set)
 SHAPES = {
@@ -37,7 +38,7 @@ SHAPES = {
     'none':     ([], {}),
 }
 DEFAULTS = {'Val': ('default', 'Int32', {'v': 7}), 'Size': ('default', 'Vector3', DB['K']['defaults']['Size'][1]),
-            'ScreenInsets': ('default', 'Enum', {'v': 2}), 'Flag': ('default', 'Bool', None)}
+            'ScreenInsets': ('default', 'Enum', {'v': 5}), 'Flag': ('default', 'Bool', None)}
 
 
 def make(shapes):
